@@ -6,9 +6,9 @@ import _lend
 
 META = dict(
     category="model_checking",
-    technique="explicit TLA+ spec (Harbor/VaultSpec) + TLC trace validation of recorded real-code behaviours and bounded implementation exploration; vault handlers predicted by the spec (conformance)",
-    text='TLC evaluates on recorded real bids: paid <= remaining target, received <= remaining collateral, collateral received <= what (paid + bonus) buys at the posted price (exact limb arithmetic on the 18-decimal price, one unit of rounding per coin), price non-increasing between restarts and inside [end price, start price], start price = premium x oracle price, auction custody (collateral and collected debt) exactly accounted by live auctions after every step, unsold collateral to the owner and penalty to the collector at close.',
-    note="Bounded: 3 users, 4 products (two sharing a collateral denom, one stable-mint), small amounts (TLC 32-bit), decimals 1/10/100, oracle-priced debt; interest amounts are environment values taken from the log; V1 liquidation/auction generation and emergency shutdown are not driven by this family. Trusted: projection functions, TLC, bank module.",
+    technique="explicit TLA+ spec (Harbor/VaultSpec/DutchV1) + TLC trace validation of recorded real-code behaviours and bounded implementation exploration; vault handlers predicted by the spec (conformance)",
+    text='TLC evaluates on recorded real bids: paid <= remaining target, received <= remaining collateral, collateral received <= what (paid + bonus) buys at the posted price (exact limb arithmetic on the 18-decimal price, one unit of rounding per coin), price non-increasing between restarts and inside [end price, start price], start price = premium x oracle price, auction custody (collateral and collected debt) exactly accounted by live auctions after every step, unsold collateral to the owner and penalty to the collector at close. First generation (x/auction, DutchV1.tla): the same laws with the bid naming the collateral amount, posted price / start price (oracle x buffer) / end price (x cusp) as limbs, bids booked on the auction, auctionV1 custody accounted by live V1 auctions, and at the close inside the bid: principal burnt, collected minus principal (penalty + fees, net of the cover by the collector in the lossy path) to the collector and booked as net fees, rest of the collateral to the owner. Conf_V1Bid (relation: the two amounts are environment values constrained by the posted price, every balance / record / total / fee booking and the branch - open, close, lossy close through the collector - is predicted) and Conf_V1Tick (price update with exact 18-decimal half-even arithmetic on limbs, restart) bind the V1 auction steps to DutchV1.tla.',
+    note="Bounded: 3 users, 4 products (two sharing a collateral denom, one stable-mint), small amounts (TLC 32-bit), decimals 1/10/100, oracle-priced debt; interest amounts are environment values taken from the log; both liquidation/auction generations are driven (V2 through blocks and messages; V1 - x/liquidation, x/auction - through MsgLiquidateVault / MsgPlaceDutchBid and, because module.go does not wire its begin blockers, through direct calls of the exported BeginBlockers as environment actions V1Sweep / V1Tick); emergency shutdown is driven too (rarely in ordinary runs, headed for in every sixth run, and in a bounded exploration of the shutdown flows: MsgDepositESM / MsgExecuteESM, the esm begin blocker with price snapshot and redemption set-up after the cool-off, MsgCollateralRedemption, withdrawals in the cool-off, V2 TriggerEsm and the V1 shutdown close-out). Trusted: projection functions, TLC, bank module.",
     design_ref='4 C10',
 )
 
@@ -16,6 +16,6 @@ META = dict(
 def run(c):
     # vault side (harbor family: V2 sweep / liquidate messages / Dutch auctions) and borrow side (lend family) of the property
     c.defer = True
-    _harbor.run(c, ['okBids', 'closingBids', 'priceChecks', 'auctionBlocks', 'externalAuctions', 'externalCloses', 'bonusBids'])
+    _harbor.run(c, ['okBids', 'closingBids', 'priceChecks', 'auctionBlocks', 'externalAuctions', 'externalCloses', 'bonusBids', 'v1Bids', 'v1Closes', 'v1LossyCloses', 'v1PriceChecks', 'v1PriceMoves', 'v1Restarts', 'v1EndPriceHits', 'esmV1CloseOuts'])
     _lend.run(c)
     return c.finish_all(["harbor", "lend"])
